@@ -40,13 +40,13 @@ Sync ==
   /\ (TopC.hm = 0 \/ PreUm < TopC.hm)
   /\ (TopC.tc \/ PreUc = 0) /\ (TopC.tm \/ PreUm = TopC.um)
   /\ stack' = [stack EXCEPT ![Len(stack)] = [@ EXCEPT !.uc = PreUc, !.um = PreUm]]
-  /\ UNCHANGED <<frames, pan, fail, last, hist, clk, pv, l>>
+  /\ UNCHANGED <<frames, pan, fail, last, hist, clk, pv, cor, l>>
 
 (* while a termination unwinds, deferred Go code may still release memory (never require any) *)
 UnwindRelease ==
   /\ Is("popped") /\ pan # "none" /\ Ev.um < TopC.um /\ Ev.uc = TopC.uc
   /\ stack' = [stack EXCEPT ![Len(stack)] = [@ EXCEPT !.um = Ev.um]]
-  /\ UNCHANGED <<frames, pan, fail, last, hist, clk, pv, l>>
+  /\ UNCHANGED <<frames, pan, fail, last, hist, clk, pv, cor, l>>
 
 Synced == TopC.uc = PreUc /\ TopC.um = PreUm
 
@@ -139,7 +139,7 @@ THeapVerdict ==
 
 TReset ==
   /\ Is("reset") /\ Len(stack) = 1 /\ pan = "none"
-  /\ stack' = <<RootCtx>> /\ frames' = <<>> /\ pan' = "none" /\ fail' = NoFail /\ last' = [op |-> "init"] /\ hist' = <<>> /\ clk' = clk /\ pv' = {}
+  /\ stack' = <<RootCtx>> /\ frames' = <<>> /\ pan' = "none" /\ fail' = NoFail /\ last' = [op |-> "init"] /\ hist' = <<>> /\ clk' = clk /\ pv' = {} /\ cor' = cor
   /\ Adv
 
 TNext == (Sync /\ l' = l) \/ (UnwindRelease /\ l' = l) \/ TVerdict \/ TMemVerdict \/ THeapVerdict \/ TPush \/ THost \/ TCpuLimit \/ TMemLimit \/ TExplained \/ TKill \/ TPopped \/ TPop \/ TReset
